@@ -1,6 +1,8 @@
 """C44 — Option updates are transactional, typed and survive a config round-trip
 (mitmproxy/optmanager.py, mitmproxy/utils/typecheck.py)."""
+import gc
 import os
+import weakref
 
 from lib.coqterm import cbool, cN, cZ, cbytes, clist, copt, cpair
 
@@ -15,7 +17,7 @@ RULE = ("80% histories of 4-14 calls on one real OptManager over a universe of 6
         "typed, 30% ill-typed or unknown names, bool-for-int, tuples), set(*specs, defer) with int/bool/toggle/multi-value "
         "spec strings, process_deferred, reset, subscribe / changed.connect of up to 4 listeners whose behaviour is a "
         "rule list (reject a value, reject an updated name, reject the k-th call — the last makes listeners reject the "
-        "re-notification of a rollback — and, in 40% of the histories, a re-entrant scenario: a listener that answers x == v with a nested update of another option, optionally chained, plus a rejecting listener ordered after or before it and a subscriber that only hears the nested change); 20% YAML cases: non-default values of every type built from a dictionary of "
+        "re-notification of a rollback — and, in 40% of the histories, a re-entrant scenario: a listener that answers x == v with a nested update of another option, optionally chained, plus a rejecting listener ordered after or before it and a subscriber that only hears the nested change) and, in 40%, a lifetime scenario: 2-5 validators/observers connected to .changed (some subscribed), random subsets dropped and garbage collected (del + gc.collect()) in every position relative to the survivors between updates, some re-registered); 20% YAML cases: non-default values of every type built from a dictionary of "
         "YAML-special words, quotes, newlines, control and unicode characters, saved with optmanager.save and loaded "
         "into fresh options (direct, deferred + process_deferred, and save-over-existing-file). Non-trivial = a history "
         "with at least one delivered notification, or a YAML case with at least one non-default value.")
@@ -23,7 +25,7 @@ TRUSTED = ["Coq 8.16.1 kernel (coqc), vm_compute for case evaluation",
            "harness/props/C44.py generator, listener closures and comparison glue (Corr/C44.v interp of listener rules)",
            "hand model of OptManager/_Option/check_option_type/_parse_setval incl. Python ==, int(str) for ASCII, dict order; tied by correspondence",
            "ruamel.yaml (save/serialize/parse) is not modelled: the config round-trip clause is checked by the oracle on the real code only"]
-ASSUMPTIONS = ["listeners stay alive (no weakref cleanup); errored receivers do not raise; a re-entrant listener only calls update() and lets its exception propagate (no subscribe/add_option from inside a listener); nesting depth <= 20",
+ASSUMPTIONS = ["a dropped listener is garbage collected before the next call (gc.collect()); when the code prunes dead weak references from its lists is not observed (the model keeps them as dead entries); errored receivers do not raise; a re-entrant listener only calls update() and lets its exception propagate (no subscribe/add_option from inside a listener); nesting depth <= 20",
                "listeners raise only OptionsError (another exception class is not rolled back by design of rollback())",
                "kwargs names are distinct (a Python dict); int-typed spec strings are ASCII (unicode digits/spaces of int() are not modelled)",
                "option values are treated as immutable (deepcopy aliasing is not modelled)",
@@ -137,6 +139,8 @@ def cop(op):
         return f"SetSpecs {specs} {cbool(op['defer'])}"
     if k == "process_deferred":
         return "ProcessDeferred"
+    if k == "drop":
+        return f"Drop {cN(op['l'])}"
     raise ValueError(k)
 
 
@@ -277,6 +281,8 @@ def gen_history(rng):
             ops.append({"op": "subscribe", "l": rng.below(nlisten), "opts": rng.sample(range(6), rng.randint(0, 3))})
         elif r < 0.81 and nlisten:
             ops.append({"op": "connect", "l": rng.below(nlisten)})
+        elif r < 0.84 and nlisten:
+            ops.append({"op": "drop", "l": rng.below(nlisten)})
         elif r < 0.93:
             specs = []
             for _ in range(rng.randint(1, 3)):
@@ -312,6 +318,38 @@ def gen_history(rng):
             pos = sorted(rng.randint(1, len(ops)) for _ in seq)
             for off, (at, o) in enumerate(zip(pos, seq)):
                 ops.insert(at + off, o)
+    # lifetime scenario: several validators / observers on .changed (and a few subscribers); some of them are
+    # dropped and garbage collected, in every position relative to the survivors, between updates
+    if rng.chance(0.4) and types:
+        have = sorted(types)
+        x = rng.choice(have)
+        bad = good_value(rng, types[x])
+        ids = []
+        tail = []
+        for _ in range(rng.randint(2, 5)):
+            l = len(listeners)
+            r = rng.random()
+            listeners[str(l)] = [["val", x, bad]] if r < 0.35 else [["upd", rng.choice(have)]] if r < 0.45 else []
+            ids.append(l)
+            if rng.chance(0.8):
+                tail.append({"op": "connect", "l": l})
+            else:
+                tail.append({"op": "subscribe", "l": l, "opts": rng.sample(have, rng.randint(1, min(2, len(have))))})
+        for rnd in range(rng.randint(1, 3)):
+            for l in rng.sample(ids, rng.randint(1, max(1, len(ids) - 1))):
+                tail.append({"op": "drop", "l": l})
+            for _ in range(rng.randint(1, 3)):
+                rr = rng.random()
+                if rr < 0.45:
+                    tail.append({"op": "update", "kw": [[x, bad]]})
+                elif rr < 0.8:
+                    tail.append({"op": "update", "kw": kwargs(2)})
+                else:
+                    tail.append({"op": "setattr", "n": x, "v": good_value(rng, types[x])})
+            if rng.chance(0.5):
+                l = rng.choice(ids)
+                tail.append({"op": "connect", "l": l})              # a dropped (or live) listener registers again
+        ops.extend(tail)
     # re-entrant scenario: listener A answers x == vx with a nested update of a LATER option y (as addons do from
     # configure; later-only keeps the nesting acyclic), optionally chained through C (y -> z), and a listener B
     # ordered after (sometimes before) them rejects x, y or a particular call
@@ -514,14 +552,28 @@ def run_hist(case):
                 finally:
                     depth[0] -= 1
 
+        return body
+
+    bodies = {int(l): make(int(l), rules) for l, rules in case["listeners"].items()}
+    # OptManager holds only weak references: every subscribe / connect gets its own callable, kept alive here
+    # until the listener is dropped (del + gc.collect())
+    alive = {}
+
+    def new_subscriber(l):
+        body = bodies[l]
+
         def as_subscriber(opts, updated):
             body(updated)
+        alive.setdefault(l, []).append(as_subscriber)
+        return as_subscriber
+
+    def new_receiver(l):
+        body = bodies[l]
 
         def as_receiver(updated):
             body(updated)
-        return as_subscriber, as_receiver
-
-    fns = {int(l): make(int(l), rules) for l, rules in case["listeners"].items()}
+        alive.setdefault(l, []).append(as_receiver)
+        return as_receiver
 
     def on_error(exc):
         events.append(["E", depth[0]])
@@ -549,13 +601,22 @@ def run_hist(case):
             elif k == "reset":
                 o.reset()
             elif k == "subscribe":
-                o.subscribe(fns[op["l"]][0], [NAMES[n] for n in op["opts"]])
+                names = [NAMES[n] for n in op["opts"]]
+                if all(n in o._options for n in names):       # (a refused subscribe must not leave a callable behind)
+                    o.subscribe(new_subscriber(op["l"]), names)
+                else:
+                    o.subscribe(bodies[op["l"]], names)
             elif k == "connect":
-                o.changed.connect(fns[op["l"]][1])
+                o.changed.connect(new_receiver(op["l"]))
             elif k == "set":
                 o.set(*[NAMES[n] if v is None else f"{NAMES[n]}={v}" for n, v in op["specs"]], defer=op["defer"])
             elif k == "process_deferred":
                 o.process_deferred()
+            elif k == "drop":
+                probes = [weakref.ref(f) for f in alive.pop(op["l"], [])]
+                if any(r() is not None for r in probes):     # normally freed by refcount at once; else collect cycles
+                    gc.collect()
+                assert all(r() is None for r in probes), "dropped listener is still referenced"
         except Exception as e:
             res = {"err": _errname(e)}
         steps.append({
@@ -706,6 +767,26 @@ def oracle_hist(case, obs):
         for n, ty, _u, c, d in now:
             if not _typed(c, ty) or not _typed(d, ty):
                 v.append({"key": "ill-typed-value", "what": f"step {i} ({k}): option {NAMES[n]} of type {ty} holds {c}"})
+        # listener lifetimes: nobody who is not a live listener is ever called, and in an outermost send the live
+        # listeners are called in order without gaps (a rejecting validator cannot be bypassed)
+        if k in ("update", "update_known", "update_defer", "setattr") and prev:
+            kw0 = op["kw"] if "kw" in op else [[op["n"], op["v"]]]
+            have0 = {n for n, _ in before}
+            names0 = sorted({n for n, _ in kw0 if n in have0})
+            want0 = ([l for l, o in subs if set(o) & set(names0)] + recs) if names0 else []
+            first = []
+            for e in st["evs"]:
+                if e[0] == "E" and e[1] == 0:
+                    break
+                if e[0] == "N" and e[5] == 0:
+                    first.append(e)
+            if first and res != {"err": "type"} and res != {"err": "key"}:
+                called = [e[1] for e in first]
+                complete = not failed and first[-1][4] != "R"
+                if called != want0[:len(called)] or (complete and len(called) != len(want0)):
+                    v.append({"key": "live-listener-skipped", "what": f"step {i}: {k} of {names0}: live listeners in order are {want0} but the send called {called}"})
+            elif not first and want0 and not failed:
+                v.append({"key": "live-listener-skipped", "what": f"step {i}: {k} of {names0}: live listeners {want0} were not called"})
         if k in UPDATEISH and failed and not foreign:
             # (2) a rejected update leaves EVERY option at its previous value (also those changed by nested updates)
             if not _snap_eq(before, cur):
@@ -773,6 +854,9 @@ def oracle_hist(case, obs):
                     if n in have_now and "v" in dv and not _veq(dict(cur)[n], dv["v"]):
                         v.append({"key": "deferred-not-applied", "what": f"step {i}: deferred {NAMES[n]}={dv['v']} but the option is {dict(cur)[n]}"})
         prev_defd = st["defd"]
+        if k == "drop":                     # the listener was garbage collected: it must never be called again,
+            subs = [(l, o) for l, o in subs if l != op["l"]]    # and every other live listener still must be
+            recs = [l for l in recs if l != op["l"]]
         if k == "subscribe" and not failed:
             subs.append((op["l"], op["opts"]))
         if k == "connect" and not failed:
